@@ -1,6 +1,7 @@
 (** Protocol operations for C07 (see Lib/Val.v, Run/PbcmplOps.v). *)
 From Coq Require Import ZArith List Bool String.
-From Low Require Import Lib.BitSeq Lib.Bytes Lib.Val Model.Pbcmpl Spec.PbcmplSpec Run.PbcmplOps.
+From Low Require Import Lib.BitSeq Lib.Bytes Lib.Val Model.Pbcmpl Model.PbcmplWalk Spec.PbcmplSpec Spec.PbcmplWalkSpec
+  Run.PbcmplOps Run.PbcmplWalkOps.
 Import ListNotations.
 Open Scope string_scope.
 Open Scope Z_scope.
@@ -49,6 +50,20 @@ Definition ops_C07 : list opdef := [
      op_spec := fun_spec (fun a => match a with
        | [k; m; sc] => match as_z k, as_msg m, as_script sc with
            | Some k, Some m, Some sc => v_marshal_spec k sc m
+           | _, _, _ => VBad end
+       | _ => VBad end) |};
+  (* widening: [stream bytes, chunk pattern, terminal kind, with last] -> arbitrary bytes walked with
+     ReadHeader + io.ReadFull: [[[n, errclass, ver, hsize, bsize, body bytes, refused] per step], left] *)
+  {| op_name := "pbcmpl.Walk/bytes";
+     op_run := fun a => match a with
+       | [s; pat; tk; wl] => match as_zs s, as_zs pat, as_z tk, as_bool wl with
+           | Some s, Some pat, Some tk, Some wl =>
+               if bytes_okb s && all_pos pat then v_walk_model (chunks_of pat s, term_of tk wl) else VBad
+           | _, _, _, _ => VBad end
+       | _ => VBad end;
+     op_spec := fun_spec (fun a => match a with
+       | [s; pat; tk; wl] => match as_zs s, as_z tk, as_bool wl with
+           | Some s, Some tk, Some wl => v_walk_spec s (term_of tk wl)
            | _, _, _ => VBad end
        | _ => VBad end) |}
 ].
